@@ -3,7 +3,9 @@
 //!   the n symbols are encoded one by one on an empty coder; a snapshot `pos()` is taken before
 //!   the first and after every symbol (n+1 snapshots, printed first as pos,state pairs).
 //!   kind 0: as_seekable_decoder (borrowed cursor), 1: into_seekable_decoder (owned cursor),
-//!        2: the Vec-backed coder itself (seek truncates).
+//!        2: the Vec-backed coder itself (seek truncates),
+//!        3: from_reversed_compressed over the reversed words, positions mapped to len - pos
+//!           (ops 3 and 4 use the reversed coordinates).
 //!   ops: 1 i      seek(snapshot i)          -> 0 | -6
 //!        2 m      decode_symbol(model m)    -> sym
 //!        3 p s    seek((p, s))              -> 0 | -6
@@ -76,7 +78,17 @@ macro_rules! seek_impl {
             match r.next() {
                 0 => dec_loop!(coder.as_seekable_decoder(), r, out, models, snaps, $Pr, $S, $plist),
                 1 => dec_loop!(coder.into_seekable_decoder(), r, out, models, snaps, $Pr, $S, $plist),
-                _ => dec_loop!(coder, r, out, models, snaps, $Pr, $S, $plist),
+                2 => dec_loop!(coder, r, out, models, snaps, $Pr, $S, $plist),
+                _ => {
+                    // reversed backend: the compressed words are reversed so that they are read
+                    // front to back; positions are mapped to `len - pos` (see `Seek::seek` docs)
+                    let mut compressed = coder.into_compressed().unwrap();
+                    let total = compressed.len();
+                    compressed.reverse();
+                    let rsnaps: Vec<(usize, $S)> = snaps.iter().map(|&(p, s)| (total - p, s)).collect();
+                    let dec = AnsCoder::<$W, $S, _>::from_reversed_compressed(compressed).unwrap();
+                    dec_loop!(dec, r, out, models, rsnaps, $Pr, $S, $plist)
+                }
             }
         }
     };
